@@ -29,6 +29,10 @@ struct Raw
     struct StorageProperties properties;
     struct file file;
     size_t offset;
+
+    /// Non-zero while `file` refers to a descriptor this device opened and
+    /// has not closed yet.
+    int is_open;
 };
 
 static enum DeviceState
@@ -83,6 +87,7 @@ raw_start(struct Storage* self_)
     struct Raw* self = containerof(self_, struct Raw, writer);
     CHECK(file_create(
       &self->file, self->properties.uri.str, self->properties.uri.nbytes));
+    self->is_open = 1;
     // every acquisition starts at the beginning of its own file
     self->offset = 0;
     LOG("RAW: Frame header size %d bytes", (int)sizeof(struct VideoFrame));
@@ -95,7 +100,12 @@ static enum DeviceState
 raw_stop(struct Storage* self_)
 {
     struct Raw* self = containerof(self_, struct Raw, writer);
-    file_close(&self->file);
+    // Only close what start() opened, and only once: stop is also reached
+    // from destroy and from the append error path.
+    if (self->is_open) {
+        file_close(&self->file);
+        self->is_open = 0;
+    }
     return DeviceState_Armed;
 }
 
